@@ -194,6 +194,7 @@ Definition ok_step (s : vol) (m : mstep) : Prop :=
   | MUpd id key _ _ _ | MDel id key => tgt_key s id key
   | MTail id keep tail => Forall (tg (T id)) (lives (skipn keep (items_of s id))) /\ Forall (tg (T id)) (lives tail)
   | MClean _ => True
+  | MView _ _ => False               (* only in micro_x: see ProofsClean.v *)
   | MReg c => D c /\ lives_of s0 c = []
   | MForget c => D c /\ lives_of s0 c = []
   | MDot c _ => D c
@@ -242,7 +243,7 @@ Proof. intros H. unfold get_dir. cbn [v_dirs]. rewrite find_drop_other by exact 
 
 Theorem ok_step_inv s m : Inv s -> ok_step s m -> Inv (apply_m s m).
 Proof.
-  intros I Ok. destruct m as [c v|c v|c|c|id key a sz cl|id key|id keep tail|id|c|c v|c v|c]; cbn [Model.apply_m ok_step] in *.
+  intros I Ok. destruct m as [c v|c v|c|c|id key a sz cl|id key|id keep tail|id|id vl|c|c v|c v|c]; cbn [Model.apply_m ok_step] in *.
   - constructor; try apply I.
   - constructor; try apply I; cbn [set_fat v_fat ftbl].
     + rewrite set_length. apply I.
@@ -259,6 +260,7 @@ Proof.
     apply (sub_tail (T id) _ _ (iv_ents _ I id) (lives (firstn keep (items_of s id))) (lives (skipn keep (items_of s id)))); try assumption.
     unfold lives_of. rewrite <- lives_app, firstn_skipn. reflexivity.
   - apply Inv_set_items; [exact I|]. rewrite lives_filter_live. apply I.
+  - destruct Ok.
   - destruct Ok as [Dc E0]. constructor; try apply I; unfold reg_dir.
     + intros k. destruct (N.eq_dec k c) as [->|H].
       * assert (E : lives_of {| v_fat := v_fat s; v_dirs := put_dir (v_dirs s) c empty_dir |} c = [])
